@@ -129,4 +129,31 @@ for label, G in subjects:
                 if np.linalg.norm(r2 - r) > 1e-7 * nv:
                     fail(f"project:orbit-inconsistent:{label}", f"two symmetry-equivalent directions (off the boundary) project to different directions for {label}", rep)
 
+# ---------------- exact witnesses from the sector certificate generator (tools/impl/c07cert.py): a rational
+# direction for which the sector is not a fundamental domain; replayed here on the implementation
+BYNAME = {g.name: g for g in GROUPS}
+for w in P.get("witnesses", []):
+    G0 = BYNAME.get(w["group"])
+    if G0 is None:
+        continue
+    G = G0.laue if w["kind"] == "laue" else G0
+    label = f"laue({w['group']})" if w["kind"] == "laue" else w["group"]
+    fs = G.fundamental_sector
+    v = np.array(w["witness"], float)
+    orb = matrices(G) @ v
+    closed_in = np.asarray(Vector3d(orb.copy()) <= fs).reshape(-1)
+    st("certificate-witness")
+    rep = {"group": label, "v": v.tolist(), "stratum": "certificate-witness", "op": w.get("op", 0)}
+    if w.get("op", 0) == 0:
+        if not closed_in.any():
+            fail(f"domain:no-equivalent-inside:{label}", f"no symmetry-equivalent of {v.tolist()} lies inside the closed sector of {label} "
+                 "(exact witness from the certificate search, confirmed on the implementation)", rep)
+    else:
+        N = fs.data.reshape(-1, 3)
+        d = orb @ N.T
+        strictly = np.all(d > 1e-9, axis=1)
+        if len({tuple(np.round(o, 9)) for o in orb[strictly]}) > 1:
+            fail(f"domain:not-exactly-one:{label}", f"{v.tolist()} has several equivalents strictly inside the sector of {label} "
+                 "(exact witness from the certificate search, confirmed on the implementation)", rep)
+
 emit({"cases": cases, "fails": fails, "strata": strata})
